@@ -228,7 +228,7 @@ _MESSAGES = ("", "x", "line one\nline two", "h\u00e9 \u2713 \U0001f600", "L" * 4
 _ATOMS = ("a", "\n", "\u00e9", "\u2713", "\U0001f600", "'")
 
 
-@cond(q=60, t=300, encoded=ENCODED, stubs=_RT_STUBS,
+@cond(q=100, t=300, encoded=ENCODED, stubs=_RT_STUBS,
       bound="message = concatenation of <= %d atoms chosen by symbolic indices from %r, for ValueError / a user class with a kind / MethodNotImplementedError" % (_NM, _ATOMS))
 def error_message_text_roundtrip(c3: int, n: int, a0: int, a1: int, a2: int, a3: int) -> bool:
     """
@@ -538,7 +538,7 @@ def _replay_site(args: dict) -> str | None:
 _MI = pick(1, 3)
 
 
-@cond(q=60, t=300, encoded=[srv.RpcServer._serve_unary, srv.RpcServer._serve_stream] + ENCODED, replay=_replay_site,
+@cond(q=100, t=300, encoded=[srv.RpcServer._serve_unary, srv.RpcServer._serve_stream] + ENCODED, replay=_replay_site,
       stubs=["time.monotonic := concrete counter (access-log duration only)"], signature=lambda a, c: "C07:dispatch-site:error-not-faithful",
       bound="12 exception classes x %d concrete messages x 4 socket dispatch sites (unary, stream init, first process step, later step after a log and a data batch); real pyarrow and json" % (_MI + 1))
 def error_at_dispatch_sites(ci: int, mi: int, site: int) -> bool:
@@ -806,7 +806,7 @@ def _make_http_item(site: int):  # type: ignore[no-untyped-def]
             return False
 
     item.__name__ = item.__qualname__ = "http_error_at_" + _SITE_NAMES[site]
-    return cond(q=60, t=180, encoded=_HTTP_ENCODED, stubs=_HTTP_STUBS, replay=replay, signature=lambda a, c: "C07:http-site:%s:error-not-200-with-marker" % _SITE_NAMES[site],
+    return cond(q=100, t=240, encoded=_HTTP_ENCODED, stubs=_HTTP_STUBS, replay=replay, signature=lambda a, c: "C07:http-site:%s:error-not-200-with-marker" % _SITE_NAMES[site],
                 bound="HTTP site '%s' x %d exception classes (TypeError and a subclass, ArrowInvalid, StopIteration, KeyError and a subclass, VersionError, typed framework errors, ...); real falcon WSGI stack, tokens, pyarrow, json" % (_SITE_NAMES[site], len(_HTTP_CLASSES)))(item)
 
 
